@@ -11,6 +11,7 @@ package gsim
 
 import (
 	"fmt"
+	"runtime"
 	"sync"
 )
 
@@ -22,7 +23,8 @@ type Task struct {
 	Budget int64       // > 0: panic(BudgetExceeded) when Steps exceeds it
 	wake   chan struct{}
 	done   bool
-	InSite int // site of the last yield (for coverage)
+	InSite int  // site of the last yield (for coverage)
+	spin   bool // the task yielded because it is waiting for a lock another task holds
 }
 
 type BudgetExceeded struct{ Steps int64 }
@@ -40,8 +42,72 @@ var (
 
 func init() { cur = main0 }
 
+// Cur returns the task the calling code belongs to.
+//
 //go:norace
-func Cur() *Task { return cur }
+func Cur() *Task {
+	if freeMode {
+		if t, ok := goTasks.Load(goid()); ok {
+			return t.(*Task)
+		}
+		return main0
+	}
+	return cur
+}
+
+// ---- free mode (observation, not simulation) ----
+//
+// If the generated code starts goroutines of its own or uses channels, the
+// cooperative scheduler cannot own every interleaving (a task blocked in a
+// channel operation would block the only running goroutine).  Then tasks run as
+// ordinary goroutines in parallel, Yield becomes an occasional runtime.Gosched,
+// and the run is an observation under the race detector, labelled as such.
+
+var (
+	freeMode bool
+	goTasks  sync.Map // goroutine id -> *Task
+)
+
+func goid() uint64 {
+	var buf [64]byte
+	n := runtime.Stack(buf[:], false)
+	// "goroutine 123 [running]:"
+	var id uint64
+	for i := len("goroutine "); i < n && buf[i] >= '0' && buf[i] <= '9'; i++ {
+		id = id*10 + uint64(buf[i]-'0')
+	}
+	return id
+}
+
+// RunFree runs the bodies as plain goroutines.
+func RunFree(datas []interface{}, budget int64, bodies []func()) (panics []interface{}) {
+	n := len(bodies)
+	panics = make([]interface{}, n)
+	freeMode = true
+	var wg sync.WaitGroup
+	start := make(chan struct{})
+	for i := 0; i < n; i++ {
+		t := &Task{ID: i, Data: datas[i], Budget: budget, InSite: -1}
+		idx := i
+		wg.Add(1)
+		go func() {
+			defer wg.Done()
+			goTasks.Store(goid(), t)
+			<-start
+			defer func() {
+				if r := recover(); r != nil {
+					panics[idx] = r
+				}
+			}()
+			bodies[idx]()
+		}()
+	}
+	close(start)
+	wg.Wait()
+	freeMode = false
+	goTasks.Range(func(k, v interface{}) bool { goTasks.Delete(k); return true })
+	return panics
+}
 
 //go:norace
 func setCur(t *Task) { cur = t }
@@ -93,6 +159,19 @@ func TotalYields() int64 { return totalYields }
 // Yield is inserted at every function entry and loop head of generated code.
 func Yield(site int) {
 	t := Cur()
+	if freeMode {
+		if t == main0 {
+			return // a goroutine the generated code started itself
+		}
+		t.Steps++
+		if t.Budget > 0 && t.Steps > t.Budget {
+			panic(BudgetExceeded{t.Steps})
+		}
+		if t.Steps%5 == 0 {
+			runtime.Gosched()
+		}
+		return
+	}
 	countYield()
 	t.Steps++
 	t.InSite = site
@@ -103,6 +182,27 @@ func Yield(site int) {
 		s.yield(t)
 	}
 }
+
+// YieldBlocked is called by the gsync wrappers while a task spins on a
+// primitive held by another task: the scheduler must run somebody else.
+func YieldBlocked() {
+	t := Cur()
+	if freeMode {
+		runtime.Gosched()
+		return
+	}
+	t.Steps++
+	if t.Budget > 0 && t.Steps > t.Budget {
+		panic(BudgetExceeded{t.Steps})
+	}
+	if s := getSched(); s != nil && t != main0 {
+		setSpin(t)
+		s.yield(t)
+	}
+}
+
+//go:norace
+func setSpin(t *Task) { t.spin = true }
 
 // ---- scheduler ----
 
@@ -235,6 +335,20 @@ func (s *Sched) loop() {
 
 //go:norace
 func (s *Sched) pick(live []*Task, last *Task) *Task {
+	// a task spinning on a lock is not offered while anybody else can run
+	var ready []*Task
+	for _, t := range live {
+		if !t.spin {
+			ready = append(ready, t)
+		}
+	}
+	for _, t := range live {
+		t.spin = false
+	}
+	if len(ready) > 0 && len(ready) < len(live) {
+		live = ready
+		last = nil
+	}
 	cands := live
 	if s.plan.Starve > 0 && len(live) > 1 {
 		cands = nil
